@@ -33,6 +33,18 @@ def histories(rng, tier):
                     if rng.random() < 0.3:
                         acts += [("measure", m & rng.getrandbits(n + 1)), ("dump",)]
                     hs.append((rng.randrange(1 << 30), acts))
+    # states within 1e-9 (in probability) of one basis state without being it: a basis state turned by a tiny angle
+    # on one qubit, or by pi (whose cosine is a 6e-17 residue), measured on that qubit, on the others, on all
+    import math
+    for n in (1, 2, 3, 5):
+        for theta in (1e-5, 3e-6, 2e-7, math.pi, -math.pi, 2 * math.pi):
+            for kind in ("rx", "ry"):
+                b = rng.randrange(n)
+                st = rng.randrange(1 << n)
+                full = (1 << n) - 1
+                for m in {1 << b, full & ~(1 << b), full}:
+                    acts = [("with", n, st), ("apply", (kind, theta, 1 << b)), ("dump",), ("measure", m), ("dump",), ("measure", m), ("dump",)]
+                    hs.append((rng.randrange(1 << 30), acts))
     # the projection must not depend on the threading model: a third of the histories under num_threads(k),
     # plus systematic threaded measurements of high qubits on 4-6 qubit registers
     hs = regcheck.thread_mix(rng, hs, 0.33)
